@@ -103,7 +103,7 @@ func (l *Listener) call(ctx context.Context, method, args, pre string) error {
 
 func (l *Listener) BeforeFixedPriceAuctionCreated(ctx context.Context, auctioneer string, startPrice sdkmath.LegacyDec, sellingCoin sdk.Coin, payingCoinDenom string, vs []types.VestingSchedule, startTime, endTime time.Time) error {
 	pre := l.newAuctionStored(ctx)
-	return l.call(ctx, "BeforeFixedPriceAuctionCreated", fmt.Sprintf("%s|%s|%s|%s|%s|%d|%d", auctioneer, startPrice, sellingCoin, payingCoinDenom, vsString(vs), startTime.UnixNano(), endTime.UnixNano()), pre)
+	return l.call(ctx, "BeforeFixedPriceAuctionCreated", fmt.Sprintf("%s|%s|%s|%s|%s|%d|%d", canonAddr(auctioneer), startPrice, sellingCoin, payingCoinDenom, vsString(vs), startTime.UnixNano(), endTime.UnixNano()), pre)
 }
 
 func (l *Listener) newAuctionStored(ctx context.Context) string {
@@ -117,17 +117,17 @@ func (l *Listener) newAuctionStored(ctx context.Context) string {
 
 func (l *Listener) AfterFixedPriceAuctionCreated(ctx context.Context, auctionId uint64, auctioneer string, startPrice sdkmath.LegacyDec, sellingCoin sdk.Coin, payingCoinDenom string, vs []types.VestingSchedule, startTime, endTime time.Time) error {
 	has, _ := l.k.Auction.Has(ctx, auctionId)
-	return l.call(ctx, "AfterFixedPriceAuctionCreated", fmt.Sprintf("%d|%s|%s|%s|%s|%s|%d|%d", auctionId, auctioneer, startPrice, sellingCoin, payingCoinDenom, vsString(vs), startTime.UnixNano(), endTime.UnixNano()), fmt.Sprintf("stored=%v", has))
+	return l.call(ctx, "AfterFixedPriceAuctionCreated", fmt.Sprintf("%d|%s|%s|%s|%s|%s|%d|%d", auctionId, canonAddr(auctioneer), startPrice, sellingCoin, payingCoinDenom, vsString(vs), startTime.UnixNano(), endTime.UnixNano()), fmt.Sprintf("stored=%v", has))
 }
 
 func (l *Listener) BeforeBatchAuctionCreated(ctx context.Context, auctioneer string, startPrice, minBidPrice sdkmath.LegacyDec, sellingCoin sdk.Coin, payingCoinDenom string, vs []types.VestingSchedule, maxExtendedRound uint32, extendedRoundRate sdkmath.LegacyDec, startTime, endTime time.Time) error {
 	pre := l.newAuctionStored(ctx)
-	return l.call(ctx, "BeforeBatchAuctionCreated", fmt.Sprintf("%s|%s|%s|%s|%s|%s|%d|%s|%d|%d", auctioneer, startPrice, minBidPrice, sellingCoin, payingCoinDenom, vsString(vs), maxExtendedRound, extendedRoundRate, startTime.UnixNano(), endTime.UnixNano()), pre)
+	return l.call(ctx, "BeforeBatchAuctionCreated", fmt.Sprintf("%s|%s|%s|%s|%s|%s|%d|%s|%d|%d", canonAddr(auctioneer), startPrice, minBidPrice, sellingCoin, payingCoinDenom, vsString(vs), maxExtendedRound, extendedRoundRate, startTime.UnixNano(), endTime.UnixNano()), pre)
 }
 
 func (l *Listener) AfterBatchAuctionCreated(ctx context.Context, auctionId uint64, auctioneer string, startPrice, minBidPrice sdkmath.LegacyDec, sellingCoin sdk.Coin, payingCoinDenom string, vs []types.VestingSchedule, maxExtendedRound uint32, extendedRoundRate sdkmath.LegacyDec, startTime, endTime time.Time) error {
 	has, _ := l.k.Auction.Has(ctx, auctionId)
-	return l.call(ctx, "AfterBatchAuctionCreated", fmt.Sprintf("%d|%s|%s|%s|%s|%s|%s|%d|%s|%d|%d", auctionId, auctioneer, startPrice, minBidPrice, sellingCoin, payingCoinDenom, vsString(vs), maxExtendedRound, extendedRoundRate, startTime.UnixNano(), endTime.UnixNano()), fmt.Sprintf("stored=%v", has))
+	return l.call(ctx, "AfterBatchAuctionCreated", fmt.Sprintf("%d|%s|%s|%s|%s|%s|%s|%d|%s|%d|%d", auctionId, canonAddr(auctioneer), startPrice, minBidPrice, sellingCoin, payingCoinDenom, vsString(vs), maxExtendedRound, extendedRoundRate, startTime.UnixNano(), endTime.UnixNano()), fmt.Sprintf("stored=%v", has))
 }
 
 func (l *Listener) BeforeAuctionCanceled(ctx context.Context, auctionId uint64, auctioneer string) error {
@@ -135,12 +135,12 @@ func (l *Listener) BeforeAuctionCanceled(ctx context.Context, auctionId uint64, 
 	if a, err := l.k.Auction.Get(ctx, auctionId); err == nil {
 		pre = fmt.Sprintf("status=%d", int(a.GetStatus()))
 	}
-	return l.call(ctx, "BeforeAuctionCanceled", fmt.Sprintf("%d|%s", auctionId, auctioneer), pre)
+	return l.call(ctx, "BeforeAuctionCanceled", fmt.Sprintf("%d|%s", auctionId, canonAddr(auctioneer)), pre)
 }
 
 func (l *Listener) BeforeBidPlaced(ctx context.Context, auctionId, bidId uint64, bidder string, bidType types.BidType, price sdkmath.LegacyDec, coin sdk.Coin) error {
 	has, _ := l.k.Bid.Has(ctx, collections.Join(auctionId, bidId))
-	return l.call(ctx, "BeforeBidPlaced", fmt.Sprintf("%d|%d|%s|%d|%s|%s", auctionId, bidId, bidder, int(bidType), price, coin), fmt.Sprintf("stored=%v", has))
+	return l.call(ctx, "BeforeBidPlaced", fmt.Sprintf("%d|%d|%s|%d|%s|%s", auctionId, bidId, canonAddr(bidder), int(bidType), price, coin), fmt.Sprintf("stored=%v", has))
 }
 
 func (l *Listener) BeforeBidModified(ctx context.Context, auctionId, bidId uint64, bidder string, bidType types.BidType, price sdkmath.LegacyDec, coin sdk.Coin) error {
@@ -148,13 +148,13 @@ func (l *Listener) BeforeBidModified(ctx context.Context, auctionId, bidId uint6
 	if b, err := l.k.Bid.Get(ctx, collections.Join(auctionId, bidId)); err == nil {
 		pre = fmt.Sprintf("stored=%v", b.Price.Equal(price) && b.Coin.IsEqual(coin))
 	}
-	return l.call(ctx, "BeforeBidModified", fmt.Sprintf("%d|%d|%s|%d|%s|%s", auctionId, bidId, bidder, int(bidType), price, coin), pre)
+	return l.call(ctx, "BeforeBidModified", fmt.Sprintf("%d|%d|%s|%d|%s|%s", auctionId, bidId, canonAddr(bidder), int(bidType), price, coin), pre)
 }
 
 func (l *Listener) BeforeAllowedBiddersAdded(ctx context.Context, allowedBidders []types.AllowedBidder) error {
 	var sb strings.Builder
 	for _, ab := range allowedBidders {
-		fmt.Fprintf(&sb, "(%d,%s,%s)", ab.AuctionId, ab.Bidder, ab.MaxBidAmount)
+		fmt.Fprintf(&sb, "(%d,%s,%s)", ab.AuctionId, canonAddr(ab.Bidder), ab.MaxBidAmount)
 	}
 	return l.call(ctx, "BeforeAllowedBiddersAdded", sb.String(), "")
 }
